@@ -177,3 +177,35 @@ func cmdLoops(args []string) {
 		}
 	}
 }
+
+// cmdMods prints the type-based heap mod-set of functions (diagnostics).
+func cmdMods(args []string) {
+	l, err := loadRepo()
+	if err != nil {
+		fmt.Fprintln(os.Stderr, "TOOL-ERROR:", err)
+		os.Exit(2)
+	}
+	cs, err := parseContracts(contractsPath())
+	if err != nil {
+		fmt.Fprintln(os.Stderr, "TOOL-ERROR:", err)
+		os.Exit(2)
+	}
+	for _, a := range args {
+		fn := l.Funcs[a]
+		if fn == nil {
+			fmt.Println("not found:", a)
+			continue
+		}
+		stateSorts = map[string]string{"alloc": "Int"}
+		e := newEnc(l, cs, fn, &Contract{})
+		var ks []string
+		for k := range e.deepMods(fn) {
+			ks = append(ks, k)
+		}
+		sortStrings(ks)
+		fmt.Println(a, len(ks))
+		for _, k := range ks {
+			fmt.Println("  ", k)
+		}
+	}
+}
